@@ -202,13 +202,17 @@ func (l *Lexer) identifier() Token {
 }
 
 func (l *Lexer) number() Token {
-	for !l.atEnd() {
-		r := rune(l.peek())
-		if unicode.IsDigit(r) || r == '.' {
+	digits := func() {
+		for !l.atEnd() && unicode.IsDigit(rune(l.peek())) {
 			l.advance()
-		} else {
-			break
 		}
+	}
+	digits()
+	// a fraction is a dot followed by a digit: any other dot is the member
+	// operator, as in 2.5.floor()
+	if l.pos+1 < len(l.src) && l.src[l.pos] == '.' && unicode.IsDigit(rune(l.src[l.pos+1])) {
+		l.advance()
+		digits()
 	}
 	return l.stringToken(Num, l.pos-l.tokenStart)
 }
